@@ -1,0 +1,11 @@
+//go:build verif
+
+package imapserver
+
+import "github.com/emersion/go-imap/v2"
+
+// VerifState exposes the connection state to the verification harness
+// (compiled only with the "verif" build tag).
+func (c *Conn) VerifState() imap.ConnState {
+	return c.state
+}
